@@ -37,6 +37,7 @@ type Body struct {
 	Lib   *ssa.Package // the jsonpatch package
 	Codec *ssa.Package // v5 only: internal/json
 	Cmd   *ssa.Package // cmd/json-patch
+	errChainNonEmpty func(ssa.Value) bool
 	Repo  string
 
 	LibPkg, CodecPkg, CmdPkg *packages.Package
